@@ -407,6 +407,106 @@ pub fn run(cli: Cli) -> ! {
 /// histories of connections through the real Listener (the address a cookie is bound to is the one the listener
 /// hands to the connection).
 pub fn core(rep: &Report, thorough: bool) {
+    // Accumulation (first, while the process is fresh): 8 000 players return with 8 000 different valid cookies;
+    // then forty forged cookies (a made-up tag, the tag of another cookie, a body changed after signing) are
+    // presented three times each, byte for byte the same. Whatever the router remembers about cookies it has seen,
+    // a forged one is refused every time.
+    {
+        let secret = b"c02-accumulation-secret".to_vec();
+        let present = |cookie: Vec<u8>, addr: &str| {
+            let mut c = Case::default();
+            c.cfg.auth_secret = Some(secret.clone());
+            c.cfg.client_addr = addr.parse().unwrap();
+            c.script = Login { intent: 3, auth_cookie: Some(Some(cookie)), ..Default::default() }.steps();
+            let o = crate::sim::run(&c);
+            o.packets.iter().find_map(|(_, p)| if let Pkt::EncryptionRequest { should_authenticate, .. } = p { Some(*should_authenticate) } else { None })
+        };
+        let not_honoured = AtomicU64::new(0);
+        par_for(8_000, |i| {
+            let addr = format!("198.51.{}.{}:4000", i / 250, i % 250 + 1);
+            let cookie = valid_cookie(&secret, 5, &addr, &format!("Valid{i}"), 0x7000 + i as u128, &[]);
+            if present(cookie, &addr) != Some(false) {
+                not_honoured.fetch_add(1, Ordering::Relaxed);
+            }
+        });
+        if not_honoured.load(Ordering::Relaxed) == 8_000 {
+            common::machinery("C02 accumulation: none of 8 000 valid cookies was honoured; the set-up is wrong");
+        }
+        for k in 0..40u128 {
+            let addr = format!("203.0.113.{}:4100", k + 1);
+            let mut forged = valid_cookie(&secret, 5, &addr, &format!("Forged{k}"), 0x9000 + k, &[]);
+            match k % 3 {
+                0 => forged[..32].copy_from_slice(&[k as u8 ^ 0x5a; 32]),
+                1 => {
+                    let other = valid_cookie(&secret, 5, &addr, "Someone_Else", 0x9100 + k, &[]);
+                    forged[..32].copy_from_slice(&other[..32]);
+                }
+                _ => {
+                    let n = forged.len();
+                    forged[n - 10] ^= 1;
+                }
+            }
+            for attempt in 1..=3 {
+                if present(forged.clone(), &addr) != Some(true) {
+                    rep.violation(Violation {
+                        key: "forged-cookie-accepted-after-many-valid-ones".into(),
+                        text: format!("after 8 000 valid cookies: forged cookie #{k} (kind {}) presented for the {attempt}. time was not told to authenticate", ["made-up tag", "tag of another cookie", "body changed after signing"][(k % 3) as usize]),
+                        replay: json!({"earlier": "accumulation"}),
+                        weight: 3,
+                    });
+                    break;
+                }
+            }
+        }
+        rep.set("valid_cookies_before_the_forged_ones", json!(8_000));
+    }
+    // The two cookies the router itself hands out on a first visit (authentication and session), brought back
+    // together or alone, from the same address and from another one: only the address the authentication cookie
+    // names counts - the session cookie (unsigned, in the client's hands) changes nothing.
+    {
+        let secret = b"c02-both-cookies".to_vec();
+        let mut first = Case::default();
+        first.cfg.auth_secret = Some(secret.clone());
+        first.cfg.client_addr = "198.51.100.20:41000".parse().unwrap();
+        first.script = Login::default().steps();
+        first.adapters.auth = AuthPlan::Profile { name: CK_NAME.into(), uuid: CK_UUID, props: ck_props() };
+        let o1 = crate::sim::run(&first);
+        let stored = |k: &str| o1.packets.iter().find_map(|(_, p)| match p {
+            Pkt::StoreCookie { key, payload } if key == k => Some(payload.clone()),
+            _ => None,
+        });
+        let (auth, session) = (stored("passage:authentication"), stored("passage:session"));
+        let other_session = session.as_ref().and_then(|s| serde_json::from_slice::<Value>(s).ok()).map(|mut v| {
+            v["id"] = json!("11111111-2222-4333-8444-555555555555");
+            serde_json::to_vec(&v).unwrap()
+        });
+        if let Some(auth) = auth {
+            for (label, addr, sess, skip) in [
+                ("same address, both cookies", "198.51.100.20:41001", session.clone(), true),
+                ("same address, authentication cookie only", "198.51.100.20:41002", None, true),
+                ("another address, both cookies", "203.0.113.99:41003", session.clone(), false),
+                ("another address, authentication cookie only", "203.0.113.99:41004", None, false),
+                ("another address, authentication cookie and another session's cookie", "203.0.113.99:41005", other_session.clone(), false),
+                ("another address of the same /24, both cookies", "198.51.100.21:41006", session.clone(), false),
+            ] {
+                let mut c = Case::default();
+                c.cfg.auth_secret = Some(secret.clone());
+                c.cfg.client_addr = addr.parse().unwrap();
+                c.script = Login { intent: 3, auth_cookie: Some(Some(auth.clone())), session: sess, ..Default::default() }.steps();
+                c.adapters.auth = AuthPlan::Profile { name: V_NAME.into(), uuid: V_UUID, props: vec![] };
+                let o = crate::sim::run(&c);
+                let flag = o.packets.iter().find_map(|(_, p)| if let Pkt::EncryptionRequest { should_authenticate, .. } = p { Some(*should_authenticate) } else { None });
+                if flag != Some(!skip) {
+                    rep.violation(Violation {
+                        key: if skip { "issued-cookies:not-honoured-from-the-same-address".into() } else { "issued-cookies:authentication-skipped-for-another-address".into() },
+                        text: format!("the cookies the router issued to 198.51.100.20 presented again ({label}): should_authenticate = {flag:?} ({:?}, {:?})", o.kinds(), o.result),
+                        replay: json!({"earlier": "both-cookies", "label": label}),
+                        weight: 4,
+                    });
+                }
+            }
+        }
+    }
     let retries = AtomicU64::new(0);
     let sample_cookie = valid_cookie(b"c02-secret", 5, CLIENT, CK_NAME, CK_UUID, &ck_props());
     let all = specs(sample_cookie.len(), thorough);
